@@ -173,6 +173,40 @@ const isoProviders = `
 }
 `
 
+// isoColdRoutes: routes that read untouched keys through provider methods spelled in ways no earlier request
+// used (case variants of multi-word method names: each spelling is resolved against the allow-list on first use).
+// Wave w of a fresh process calls routes 8w..8w+7 at once.
+var isoColdMethods = []struct{ name, args, want string }{
+	{"hgetall", `"ch"`, `{"r":{}}`}, {"smembers", `"cs"`, `{"r":[]}`}, {"llen", `"cl"`, `{"r":0}`},
+	{"hexists", `"ch", "f"`, `{"r":false}`}, {"lrange", `"cl", 0, 1`, `{"r":[]}`}, {"sismember", `"cs", 1`, `{"r":false}`},
+}
+
+const isoColdVariants = 8
+
+func isoColdSpelling(name string, k int) string {
+	b := []byte(name)
+	for i := range b {
+		if k&(1<<uint(i%6)) != 0 && i > 0 {
+			b[i] = b[i] - 'a' + 'A'
+		}
+	}
+	return string(b)
+}
+
+func isoColdModule() (string, []string) {
+	var sb strings.Builder
+	var want []string
+	n := 0
+	for v := 0; v < isoColdVariants; v++ {
+		for _, m := range isoColdMethods {
+			fmt.Fprintf(&sb, "\n@ GET /cold/c%d {\n  %% redis: Redis\n  $ r = redis.%s(%s)\n  > {r: r}\n}\n", n, isoColdSpelling(m.name, v*5+1), m.args)
+			want = append(want, m.want)
+			n++
+		}
+	}
+	return sb.String(), want
+}
+
 type isoRes struct {
 	K string  `json:"k"`
 	I int64   `json:"i"`
@@ -252,6 +286,12 @@ func isoClassify(j isoJob, resp vResp) isoRes {
 		return fail
 	}
 	switch j.Route {
+	case "cold":
+		xi, _ := j.X.(int64)
+		if int(xi) < len(isoColdWant) && body == isoColdWant[xi] {
+			return isoRes{K: "int", I: xi, L: [][]int64{}}
+		}
+		return fail
 	case "sum", "echo":
 		return intRes("r")
 	case "gen":
@@ -309,12 +349,16 @@ func isoClassify(j isoJob, resp vResp) isoRes {
 	return fail
 }
 
+var isoColdWant []string
+
 func isoSend(s *vServer, j isoJob) vResp {
 	js := map[string][]string{"Content-Type": {"application/json"}}
 	body := func(v int64) *strings.Reader { return strings.NewReader(fmt.Sprintf(`{"v":%d}`, v)) }
 	xi, _ := j.X.(int64)
 	xs, _ := j.X.(string)
 	switch j.Route {
+	case "cold":
+		return s.do("GET", fmt.Sprintf("/cold/c%d", xi), nil, nil, "")
 	case "sum":
 		return s.do("GET", fmt.Sprintf("/sum?n=%d", xi), nil, nil, "")
 	case "gen":
@@ -390,7 +434,7 @@ func isoRandomJob(rnd *rand.Rand, pureOnly bool, maxSum int64) isoJob {
 }
 
 // isoSession: one fresh server, `rounds` bursts of `width` simultaneous requests.
-func isoSession(t *testing.T, out *[]isoEvent, rnd *rand.Rand, src string, interpret, pureOnly bool, rounds, width int, maxSum int64, nextID *int64) {
+func isoSession(t *testing.T, out *[]isoEvent, rnd *rand.Rand, src string, interpret, pureOnly, cold bool, rounds, width int, maxSum int64, nextID *int64) {
 	s, err := vServe(src, interpret)
 	if err != nil {
 		t.Fatalf("setup: %v", err)
@@ -402,6 +446,7 @@ func isoSession(t *testing.T, out *[]isoEvent, rnd *rand.Rand, src string, inter
 	var seq int64
 	for round := 0; round < rounds; round++ {
 		jobs := make([]isoJob, width)
+		coldWave := cold && round*width+width <= len(isoColdWant)
 		// bursts with a theme make the rare collisions likely: all creates, all sums, all generic calls ...
 		theme := rnd.Intn(6)
 		for i := range jobs {
@@ -417,6 +462,9 @@ func isoSession(t *testing.T, out *[]isoEvent, rnd *rand.Rand, src string, inter
 				jobs[i] = isoJob{Route: "update", X: int64(1 + rnd.Intn(2)), Y: int64(100 + rnd.Intn(800))}
 			case theme == 3 && !pureOnly:
 				jobs[i] = isoJob{Route: []string{"get", "all"}[rnd.Intn(2)], X: int64(1 + rnd.Intn(2))}
+			}
+			if coldWave {
+				jobs[i] = isoJob{Route: "cold", X: int64(round*width + i)}
 			}
 		}
 		evs := make([]isoEvent, 2*width)
@@ -489,7 +537,9 @@ func TestVerifIsoRun(t *testing.T) {
 	}
 	outPath := os.Getenv("VERIF_OUT")
 	rnd := rand.New(rand.NewSource(seed))
-	full := isoFuncs + isoProviders
+	coldSrc, coldWant := isoColdModule()
+	isoColdWant = coldWant
+	full := isoFuncs + isoProviders + coldSrc
 	maxI := isoMaxSum(t, full, true)
 	maxC := isoMaxSum(t, isoCompiledPure, false)
 	meta := map[string]interface{}{"maxSumInterpreted": maxI, "maxSumCompiled": maxC, "gomaxprocs": runtime.GOMAXPROCS(0)}
@@ -498,8 +548,8 @@ func TestVerifIsoRun(t *testing.T) {
 	for sidx := 0; sidx < sessions; sidx++ {
 		procs := []int{16, 4, 2, 8}[sidx%4]
 		old := runtime.GOMAXPROCS(procs)
-		isoSession(t, &evI, rnd, full, true, false, rounds, width, maxI, &id)
-		isoSession(t, &evC, rnd, isoCompiledPure, false, true, rounds, width, maxC, &id)
+		isoSession(t, &evI, rnd, full, true, false, sidx == 0, rounds, width, maxI, &id) // the first session of the process starts cold
+		isoSession(t, &evC, rnd, isoCompiledPure, false, true, false, rounds, width, maxC, &id)
 		runtime.GOMAXPROCS(old)
 	}
 	write := func(name string, evs []isoEvent) {
